@@ -96,6 +96,10 @@ def units_for(prop, tier):
     for pre in ipres:
         for op in sorted(cpu.BLOCK_OPS):
             units.append(dict(pre=pre, opcode=op, induction=True, wall_s=900))
+    # control skeleton of the counted loop for every count 1..0xFFFF (no definedness condition bounds the count here)
+    for pre in ([None, 0x32] if tier == "quick" else [None] + allpres):
+        for op in sorted(cpu.BLOCK_OPS):
+            units.append(dict(pre=pre, opcode=op, induction=True, skeleton=True, wall_s=600))
     heavy = {0xD4: 0, 0xC4: 1, 0xD5: 2, 0xC5: 3, 0x56: 4, 0x5E: 4, 0xF3: 5, 0xFB: 5, 0xEB: 6, 0xE3: 6, 0x54: 7, 0x5C: 7}
     units.sort(key=lambda u: (heavy.get(u["opcode"], 50) - 10 * (u.get("block_n") or 0), u["opcode"]))
     return units
